@@ -99,7 +99,7 @@ func (g *genState) newObj() *Obj {
 
 // uniqueLKey maps a primary key (length <= 3 over the 5-letter alphabet) injectively to a 16-bit prefix
 func uniqueLKey(id []byte) LKey {
-	v := len(id) // 0..3
+	v := len(id)                                             // 0..3
 	letters := append(append([]byte{}, idAlphabet...), 0x62) // every byte that can occur in a generated id
 	for _, b := range id {
 		d := 0
@@ -342,6 +342,20 @@ func (g *genState) iterOp() {
 		g.emit("resume %d %s", iid, take)
 	case x < 85:
 		if !g.open {
+			if g.r.Chance(40) {
+				// another iterator is created (its transaction commits) while Close is on its way to the table
+				// lock: the ops run inside Close at its first hook point, which precedes all of its effects
+				tab := g.iters[iid]
+				g.emit("at wtxn-before-lock 3")
+				g.emit("begin %d", tab)
+				g.emit("changes %d %d", g.nextIter, tab)
+				g.emit("commit %d", g.nextSnap)
+				g.iters[g.nextIter] = tab
+				g.itSnap[g.nextIter] = len(g.snaps)
+				g.nextIter++
+				g.snaps = append(g.snaps, g.nextSnap)
+				g.nextSnap++
+			}
 			g.emit("close %d", iid)
 			delete(g.iters, iid)
 		}
@@ -573,6 +587,29 @@ func (g *genState) genCase(id string) {
 		}
 		g.open = false
 		// ---- between transactions
+		if len(g.inits) > 0 && r.Chance(g.weight(4, "C19 C02", 8)) {
+			// an initializer marked done in a transaction that aborts, then again in one that commits
+			var keys []string
+			for i := 0; i < 2; i++ {
+				for n := 1; n <= 3; n++ {
+					if k := fmt.Sprintf("%d/%d", i, n); g.inits[k] {
+						keys = append(keys, k)
+					}
+				}
+			}
+			k := strings.Split(hx.Pick(r, keys), "/")
+			g.emit("begin %s", k[0])
+			g.emit("initdone %s %s", k[0], k[1])
+			g.emit("q txn %s init", k[0])
+			g.emit("abort")
+			g.emit("q fresh %s init", k[0])
+			g.emit("begin %s", k[0])
+			g.emit("initdone %s %s", k[0], k[1])
+			g.emit("commit %d", g.nextSnap)
+			g.snaps = append(g.snaps, g.nextSnap)
+			g.nextSnap++
+			g.emit("q fresh %s init", k[0])
+		}
 		if len(g.iters) > 0 && r.Chance(g.weight(8, "C08", 5)) {
 			// an iterator advances while the collector sits between its scan and its write transaction
 			for id := 0; id < g.nextIter; id++ {
